@@ -3,13 +3,16 @@
 Input : [timeout, [stop instant, ...], broken, suppress, store, nObs, setUp, body, tearDown] (+ ['real'] = on the real reactor)
   stage      = [[cleanup stage, ...], [side, ...], beh]    (the cleanups it registers at its start, in order; any depth)
   side       = ['junk', d] | 'logerr' | 'dropfailed' | 'flush' | 'expect'
-  beh        = 'ret' | ['raise', k] | ['fire', d] | ['faild', d, k] | 'never'
+  beh        = 'ret' | ['ret', v] | ['raise', k] | ['fire', d] | ['fire', d, v] | ['faild', d, k] | 'never'
+               v = a value token of harness/props/c15.py (objects with a hostile ==, falsy values; no v = None): what the stage returns /
+               its Deferred fires with.  The model never looks at it.
   k          = err | fail | skip | ki (KeyboardInterrupt) | exit (SystemExit)
 Trace : [events, stopRequested, raised, [[name, time, observers], ...], [live, ...], leftover, pending, obsRestored, realStops, finalTime]
 (see TTV/Drv/C14.lean).  The interrupts are `reactor.stop()` calls scheduled before `case.run(result)`.
 """
 import gc, itertools
 from harness.core import Prop
+from harness.props.c15 import VALUES, VALUE_NAMES, value_of      # the value tokens: objects with a hostile ==, falsy values
 
 EXC = ['err', 'fail', 'skip']
 UNCLAIMED = ['ki', 'exit']                                  # KeyboardInterrupt, SystemExit
@@ -53,7 +56,7 @@ class Sink:
 
 class C14(Prop):
     id = 'C14'
-    budgets = {'quick': 8000, 'thorough': 150000}
+    budgets = {'quick': 8000, 'thorough': 120000}
     time_limit = {'quick': 40, 'thorough': 600}
     rule = ('test programs setUp / test / tearDown, each registering 0-2 cleanups which themselves register cleanups (nesting depth up to 3), '
             'every stage with 0-2 side effects (leave a delayed call, log an error, drop a failed Deferred, flush_logged_errors, failing '
@@ -67,6 +70,10 @@ class C14(Prop):
             'exceptions, and scenarios on the REAL Twisted reactor (feature reactor:real; five of them also in quick). non-trivial = at '
             'least one stage returns a Deferred or has a side effect; distinct = distinct input S-expression')
     assumptions = [
+        'values: 30% of the returning / firing stages return (fire with) a value other than None - an object equal to everything, mock.ANY, '
+        'one whose == has no truth value, 0, 0.0, False, empty str/list/tuple/dict, a falsy object, an int; the model ignores the value (the '
+        'codec drops it), i.e. the claim is that the runner never looks at it; every quick run covers value x (returned | fired at 0 | fired '
+        'at 1) x (setUp | test | tearDown | cleanup)',
         'PARTIAL w.r.t. the Twisted runtime: Deferred callback chaining, inlineCallbacks, maybeDeferred, the log publisher / observers and '
         'DebugInfo (garbage collection of failed Deferreds) are modelled in TTV/Model/AsyncRun.lean, not verified; the theorems are about the '
         'runner\'s staging and bookkeeping logic',
@@ -244,13 +251,15 @@ class C14(Prop):
                     later(s[1], mine())
             if beh == 'ret':
                 return None
+            if beh[0] == 'ret':
+                return value_of(beh[1])
             if beh == 'never':
                 return defer.Deferred()
             if beh[0] == 'raise':
                 raise self._exc(case, beh[1], name)
             d = defer.Deferred()
             if beh[0] == 'fire':
-                later(beh[1], d.callback, None)
+                later(beh[1], d.callback, value_of(beh[2]) if len(beh) > 2 else None)
             else:
                 later(beh[1], d.errback, self._exc(case, beh[2], name))
             return d
@@ -348,7 +357,19 @@ class C14(Prop):
         return [inp + ['real'] for _, quick, inp in scen if quick or not quick_only]
 
     def corpus(self):
-        return Prop.corpus(self) + self.real_inputs(True)
+        return Prop.corpus(self) + self.real_inputs(True) + self.value_grid()
+
+    def value_grid(self):
+        """every value token x (returned by | carried by the Deferred of) x (setUp | the test method | tearDown | a cleanup): the
+        outcome and the staging are those of a stage returning None"""
+        st = self._st
+        out = []
+        for v in range(len(VALUES) + 1):
+            for beh in (['ret', v], ['fire', 1, v], ['fire', 0, v]):
+                for where in range(4):
+                    b = [beh if where == i else 'ret' for i in range(4)]
+                    out.append([5, [], False, True, True, 0, st(b[0]), st(b[1], cleanups=[st('ret'), st(b[3])]), st(b[2])])
+        return out
 
     # ----- generators
     def gen_stage(self, rng, clean, T, depth=0):
@@ -376,6 +397,12 @@ class C14(Prop):
         else:
             beh = 'ret' if k < 0.3 else ['fire', delay] if k < 0.6 else ['raise', exc()] if k < 0.75 else \
                 ['faild', delay, exc()] if k < 0.9 else 'never'
+        if rng.random() < 0.3:
+            # the stage returns a value / its Deferred fires with a value other than None: the runner must not look at it
+            if beh == 'ret':
+                beh = ['ret', rng.randrange(len(VALUES) + 1)]
+            elif beh[0] == 'fire':
+                beh = beh + [rng.randrange(len(VALUES) + 1)]
         if depth == 0:
             n = rng.choice([0, 0, 1, 1, 2])
         elif depth == 1:
@@ -486,6 +513,8 @@ class C14(Prop):
              'cleanups=%d' % min(len(stages) - 3, 6), 'cleanup-nesting=%d' % (max(self.depth(m) for m in inp[6:9]) - 1)]
         for s in stages:
             f.append('beh:' + (s[2] if isinstance(s[2], str) else s[2][0] + ('-' + s[2][-1] if s[2][0] in ('raise', 'faild') else '')))
+            if isinstance(s[2], list) and ((s[2][0] == 'ret') or (s[2][0] == 'fire' and len(s[2]) > 2)):
+                f.append('stage-value:' + (VALUE_NAMES[s[2][-1]] if s[2][-1] < len(VALUES) else 'int'))
             for side in s[1]:
                 f.append('side:' + (side if isinstance(side, str) else side[0]))
         if not isinstance(trace, list) or len(trace) < 10 or trace[0] == 'raised':
@@ -540,6 +569,8 @@ class C14(Prop):
             yield [cleanups, sides[:j] + sides[j + 1:], beh]
         if beh != 'ret':
             yield [cleanups, sides, 'ret']
+        if isinstance(beh, list) and beh[0] == 'fire' and len(beh) > 2:
+            yield [cleanups, sides, beh[:2]]
         if isinstance(beh, list) and beh[0] in ('fire', 'faild') and beh[1] > 0:
             yield [cleanups, sides, [beh[0], beh[1] - 1] + beh[2:]]
         if isinstance(beh, list) and beh[0] == 'faild':
